@@ -91,6 +91,35 @@ func NewLexPart(header, imports, prodList interface{}) (*LexPart, error) {
 	return lexPart, nil
 }
 
+// UndefinedRegDef returns an error if a lexical production refers to a regular definition that is not defined.
+// References inside a definition that is never used itself are checked too.
+func (this *LexPart) UndefinedRegDef() error {
+	for _, p := range this.ProdList.Productions {
+		refs := &regDefRefs{}
+		p.LexPattern().Walk(refs)
+		for _, id := range refs.ids {
+			if _, exist := this.RegDefs[id]; !exist {
+				if _, imported := this.LexImports.Imports[id]; !imported {
+					return fmt.Errorf("undefined regular definition %s used in %s", id, p.Id())
+				}
+			}
+		}
+	}
+	return nil
+}
+
+// regDefRefs collects the regular definitions a pattern refers to.
+type regDefRefs struct {
+	ids []string
+}
+
+func (r *regDefRefs) Visit(n LexNode) LexNodeVisitor {
+	if id, ok := n.(*LexRegDefId); ok {
+		r.ids = append(r.ids, id.Id)
+	}
+	return r
+}
+
 func (this *LexPart) StringLitTokDef(id string) *LexTokDef {
 	tokDef := this.stringLitToks[id]
 	return tokDef
